@@ -90,6 +90,7 @@ type File struct {
 	Imports []string `json:"imports,omitempty"`
 	HdrWS   []string `json:"hdr_ws,omitempty"` // whitespace printed after the i-th header clause (extends first, then imports)
 	Body    []*Node  `json:"body"`
+	Broken  bool     `json:"broken,omitempty"` // printed as unparsable source; looking it up fails
 }
 
 // Program is a template set plus everything needed to execute its entry.
